@@ -178,7 +178,7 @@ def run(ctx, ck):
     row_obs = {}
     for f in sorted(writers, key=lambda x: x.qual):
         try:
-            paths = SymExec(ctx, f, bind_loops=True, no_expand=wq).run()
+            paths = SymExec(ctx, f, depth=4, bind_loops=True, no_expand=wq).run()
         except AnalysisError as e_:
             raise AnalysisError('%s: %s' % (f.qual, e_))
         for p_ in paths:
@@ -229,7 +229,7 @@ def run(ctx, ck):
     def wpaths(q):
         if q not in _paths_cache:
             f_ = m.func(q)
-            _paths_cache[q] = [p_ for p_ in SymExec(ctx, f_, bind_loops=True, no_expand=wq).run() if p_.end != 'raise']
+            _paths_cache[q] = [p_ for p_ in SymExec(ctx, f_, depth=4, bind_loops=True, no_expand=wq).run() if p_.end != 'raise']
         return _paths_cache[q]
 
     def calls_on(p_, call_attr, recv_re):
@@ -283,16 +283,31 @@ def run(ctx, ck):
     # geometry blocks: outer loops over all objects (statement or comprehension form, helpers included)
     from ..rules import self_closure
 
+    _norm0 = norm
+
     def n_iterations_of(q, iter_txt):
         n_ = 0
         for g_ in self_closure(ctx, m.func(q)):
             if g_.qual in wq and g_.qual != q:
                 continue
+            # a local that only ever names the collection (geo = self.geo) counts as the collection
+            alias_ = {}
+            for a_ in walk_no_nested(g_.node):
+                if isinstance(a_, ast.Assign) and len(a_.targets) == 1 and isinstance(a_.targets[0], ast.Name):
+                    alias_.setdefault(a_.targets[0].id, []).append(_norm0(a_.value))
+            alias_ = {k_ for k_, v_ in alias_.items() if v_ == [iter_txt]}
+
+            def normA(e_):
+                t_ = _norm0(e_)
+                return iter_txt if t_ in alias_ else t_
             for x_ in walk_no_nested(g_.node):
-                if isinstance(x_, ast.For) and norm(x_.iter) == iter_txt:
+                if isinstance(x_, ast.For) and normA(x_.iter) == iter_txt:
                     n_ += 1
-                elif isinstance(x_, ast.comprehension) and norm(x_.iter) == iter_txt:
+                elif isinstance(x_, ast.comprehension) and normA(x_.iter) == iter_txt:
                     n_ += 1
+                elif isinstance(x_, ast.Call) and (dotted(x_.func) or '') in ('map', 'starmap', 'itertools.starmap') and \
+                        len(x_.args) == 2 and normA(x_.args[1]) == iter_txt:
+                    n_ += 1         # map(f, X): one f(x) per element
         return n_
     f = m.func('mininec.Mininec.wires_as_mininec')
     ck.ob('R-EXH.rows', f.qual + '|objects', n_iterations_of(f.qual, 'self.geo') == 2, f.loc(),
@@ -335,7 +350,7 @@ def run(ctx, ck):
               'IMPEDANCE': ['self.impedance.real', 'self.impedance.imag'],
               'POWER': ['self.power']}
     got_lab = {}
-    for p_ in SymExec(ctx, src_w, bind_loops=True, no_expand=wq - {src_w.qual}).run():
+    for p_ in SymExec(ctx, src_w, depth=4, bind_loops=True, no_expand=wq - {src_w.qual}).run():
         if p_.end == 'raise':
             continue
         for e_, st_ in line_exprs(p_):
@@ -367,7 +382,17 @@ def run(ctx, ck):
     ff = m.func('util.format_float')
     from ..cfg import if_chain_preds
     cuts = []
-    for q_ in sorted(prog.closure([ff], edge_filter=lambda e: e.kind == 'call' and e.callee.module is ff.module)):
+    # format_float and the functions of its module it refers to by name (called, or handed to map / partial)
+    todo_, seen_ = [ff], {ff.qual}
+    while todo_:
+        g0 = todo_.pop()
+        for n_ in ast.walk(g0.node):
+            if isinstance(n_, ast.Name) and isinstance(n_.ctx, ast.Load):
+                h_ = m.funcs.get('%s.%s' % (ff.module.name, n_.id))
+                if h_ is not None and h_.qual not in seen_:
+                    seen_.add(h_.qual)
+                    todo_.append(h_)
+    for q_ in sorted(seen_):
         g_ = m.funcs[q_]
         for x_ in walk_no_nested(g_.node):
             if isinstance(x_, ast.Subscript) and isinstance(x_.slice, ast.Slice) and x_.slice.upper is not None \
